@@ -56,6 +56,7 @@ class Interp(OpsMixin, BuiltinsMixin):
     def reset_path(self):
         self.writes = []
         self.depth = 0
+        self.call_hooks = {}
         if not self.module_loaded:
             # the module body is executed once per interpreter: class namespaces and module constants are
             # never written by the functions under contract (checked: no `global`, no class-attribute stores).
